@@ -468,6 +468,30 @@ fn keygen_sweep(ctx: &Ctx, rep: &mut Report) {
     );
 }
 
+/// The constant-time test entry point (`dudect_keygen_sign_with_rng`, cargo feature `dudect`) is a public function
+/// too: key generation + signing with rejection neutralised, for many RNG values.
+#[cfg(feature = "dudect")]
+fn dudect_sweep(ctx: &Ctx, rep: &mut Report) {
+    let n = u64::from(ctx.n(9000, 150_000));
+    let seed = ctx.seed;
+    crate::engine::run_sweep(
+        rep,
+        "dudect_keygen_sign_sweep",
+        n,
+        false,
+        |i, st| {
+            let libr = libs()[(i % 3) as usize];
+            let v = gen::prg_bytes(crate::engine::hash_of(&(seed, "c13-dudect", i)), "rng", 64);
+            st.eval();
+            st.nontrivial_enumerated += 1;
+            let mut rng = TestRng::replay(&v);
+            let _ = g("dudect_keygen_sign_with_rng", || libr.dudect_keygen_sign(&mut rng, &v[..(i % 30) as usize]).is_ok())?;
+            Ok(())
+        },
+        |i| json!({"index": i, "seed": seed}),
+    );
+}
+
 pub fn run(ctx: &Ctx, rep: &mut Report) {
     rep.assume("built with debug-assertions and overflow-checks on (checked profile); a panic anywhere inside a public API call is a violation; a hang is reported as inconclusive by the watchdog of ./check");
     rep.assume("a non-terminating signing loop would surface as the u16 counter overflow panic after at most 16384 iterations");
@@ -477,6 +501,8 @@ pub fn run(ctx: &Ctx, rep: &mut Report) {
     run_list(rep, "directed", &d, |c, st| check(&root, c, st));
     seed_sweep(ctx, rep);
     keygen_sweep(ctx, rep);
+    #[cfg(feature = "dudect")]
+    dudect_sweep(ctx, rep);
     let sib = crate::props::c02::load_sib_corpus(&ctx.root);
     run_list(rep, "sample_in_ball_extremes", &sib, crate::props::c02::check_sib);
     run_generated(ctx, rep, "sequences", ctx.n(24_000, 400_000), || strategy(max_len, max_msg), |c, st| check(&root, c, st));
